@@ -482,6 +482,15 @@ func c03Header(c *Ctx, w *prove.World) {
 	for _, a := range dec {
 		byField[a.Field] = a
 	}
+	if why := eu.Incomplete(); why != "" {
+		// the input is consumed through something this extractor does not follow (a cursor
+		// type, a closure, a helper that stores what it reads): nothing was observed
+		for _, sp := range c03HeaderSpec {
+			c.NotDecided("header", "Header.Unmarshal "+sp.field, p.Rel(u.Pos()), why)
+		}
+		c03PID(c, w)
+		return
+	}
 	for _, sp := range c03HeaderSpec {
 		key := "Header.Unmarshal " + sp.field
 		if sp.kind == "nested" {
